@@ -234,6 +234,13 @@ def _mutate(name):
                 cc.template("__i18n_domain = NAME", NAME=cc.ast.Constant(node.name)) + \
                 self.visit(node.node) + cc.template("__i18n_domain = BACKUP", BACKUP=backup)
         cc.Compiler.visit_Domain = visit_Domain
+    elif name == 'attribute_target_from_context':
+        # the pre-fix behaviour: the generated translation call of an attribute names target_language as an
+        # ordinary (context-looked-up) name instead of the render function's local variable
+        def visit_Translate(self, node, target):
+            msgid = cc.ast.Constant(node.msgid) if node.msgid is not None else target
+            return self._translate(node.node, target) + cc.emit_translate(target, msgid, default=target)
+        cc.ExpressionTransform.visit_Translate = visit_Translate
     elif name == 'msgid_not_normalised':
         import inspect
         import textwrap
